@@ -4,7 +4,7 @@ EXTENDS Demo, Json, TLCExt
 
 CONSTANTS MaxChunks,   \* chunks per recording
           Headers,     \* subset of 1..4: header variants (variant 1 carries the long recordings)
-          StartTicks,  \* first tick of a recording
+          StartTicks,  \* first tick of a recording: indices into StartTick (cfg files cannot hold negative numbers)
           Gaps,        \* tick gaps
           SnapSizes,   \* compressed sizes of snapshots / deltas (realised by the harness)
           MsgCodes     \* messages: 4 * compressed size + (length mod 4) (realised by the harness)
@@ -19,6 +19,8 @@ Hdr(i) ==
     [] i = 4 -> [a |-> "new", nv |-> 63, mn |-> 0, ts |-> 19, kind |-> "server", sha |-> FALSE, map |-> 300,
                  crc |-> 1, length |-> 0]
 
+StartTick(i) == CASE i = 1 -> 0 [] i = 2 -> 7 [] i = 3 -> -5 [] i = 4 -> 2147483600 [] i = 5 -> MinInt
+
 Limit == IF phase = "open" /\ hdr.nv = 0 /\ ~hdr.sha THEN MaxChunks ELSE 1
 
 NNew == phase = "idle" /\ \E i \in Headers : Step(Hdr(i))
@@ -26,7 +28,7 @@ NTick == /\ n < Limit
          /\ \E kf \in BOOLEAN :
               IF wprev.has
               THEN \E g \in Gaps : wprev.t <= MaxInt - g /\ Step([a |-> "tick", t |-> wprev.t + g, kf |-> kf])
-              ELSE \E s \in StartTicks : Step([a |-> "tick", t |-> s, kf |-> kf])
+              ELSE \E s \in StartTicks : Step([a |-> "tick", t |-> StartTick(s), kf |-> kf])
 NSnap == /\ n < Limit
          /\ \E k \in {"snapshot", "delta"}, s \in SnapSizes :
               Step([a |-> "data", kind |-> k, id |-> n + 1, csize |-> s, m4 |-> 0])
